@@ -91,12 +91,12 @@ def npc_siblings(ctx, crate, clause="npc-bound-siblings"):
             eh = Engine(crate); rh = eh.run(HW)
             pn = crate.body(HW).param_names()
             bad = []
-            for b_, r_ in ((0.75, 0.1), (1.0, 0.2), (1.3, 0.2), (1.5, 0.01), (0.9, 0.5), (1.4, 0.3), (1.56, 0.02), (0.3, 1.0)):
+            for b_, r_ in [(0.75, 0.1), (1.0, 0.2), (1.3, 0.2), (1.5, 0.01), (0.9, 0.5), (1.4, 0.3), (1.56, 0.02), (0.3, 1.0)] + [(x, y) for x in (0.0, 0.2, 0.5, 0.75, 1.0, 1.3, 1.5) for y in (1e-3, 0.05, 0.4, 1.2, 1.6, 2.0, 2.5, 3.0, 3.14)]:
                 v = feval(rh.ret, {('p', pn[0]): b_, ('p', pn[1]): r_}, eh) if rh.returns else None
                 want = math.pi / 4 if b_ + r_ >= math.pi / 2 else math.asin(min(1.0, math.sin(r_) / math.cos(b_)))
                 if v is None or (b_ + r_ >= math.pi / 2 and v < math.pi / 4) or (b_ + r_ < math.pi / 2 and v < want - 1e-12): bad.append((b_, r_, v, want))
             okw = not bad and calls[0].args[1] == added
-            whyw = "w(|lat|, r) >= asin(sin r / cos lat) (>= pi/4 when the cone contains a pole) at 8 sample points" if okw else "w(lat = %s, r = %s) = %s, the longitude half-width of that cone is %.6f" % bad[0] if bad else "the helper is not given w"
+            whyw = "w(|lat|, r) >= asin(sin r / cos lat) (>= pi/4 when the cone contains a pole) at 71 sample points, radii up to pi" if okw else "w(lat = %s, r = %s) = %s, the longitude half-width of that cone is %.6f" % bad[0] if bad else "the helper is not given w"
         else:
             lat_in = any(y[0] == 'p' and 'lat' in y[1] for y in walk(added))
             okw = False if not lat_in else None
@@ -273,4 +273,6 @@ def run(ctx):
     npc_siblings(ctx, crate)
     profile_agreement(ctx)
     debug_assertions_cover_inputs(ctx)
+    from rules import c16_bounds
+    c16_bounds.run(ctx, crate)
     ctx.not_decided("that the tabulated limits and the linear/parabolic envelopes of ConstantsC2V are upper bounds of real cell sizes (spherical trigonometry); largest_center_to_vertex_distance*")
